@@ -59,14 +59,7 @@ def run_cppcheck_dump(src, extra=(), timeout=300):
     if os.path.exists(dump):
         os.remove(dump)
     cmd = [vlib.CPPCHECK, "--dump", "-q", "--inline-suppr"] + list(extra) + [src]
-    for attempt in range(6):
-        rc, out, _ = vlib.sh(cmd, timeout=timeout, cwd=os.path.dirname(src))
-        # another check is relinking the binary / recopying cfg/ right now: not a property of the input
-        if not (rc in (126, 127) or "installation is broken" in out or "Permission denied" in out or "Text file busy" in out):
-            break
-        time.sleep(10)
-    else:
-        raise vlib.BuildError("cppcheck binary unusable (concurrent rebuild?): rc=%s %s" % (rc, out[-300:]))
+    rc, out = D.sh_retry(cmd, timeout=timeout, cwd=os.path.dirname(src))
     return rc, out, dump if os.path.exists(dump) else None
 
 
